@@ -61,13 +61,13 @@ Proof. exact free_step_x. Qed.
 (* the state behind the theorem: from the free on nobody owns a reference; the mutex queue is empty; every user is between
    calls for good, crashed, or in the post-last-CAS tail of nsync_mu_unlock_slow_ (waiter records and semaphores only);
    every thread that owns no reference is outside the part of wake_waiters that works on the mutex -- and cannot get there:
-   no native waiter is left on the cv queue or on a to_wake_list, so pmu = NULL whenever it wakes somebody *)
+   only nsync_wait_n records are left on the cv queue or on a to_wake_list (no native and no generic-interface waiter), so pmu = NULL whenever it wakes somebody *)
 Theorem C13x_tail_after_free : forall progs sched,
   Z.of_nat (length progs) < 2 ^ 24 - 1 ->
   let w := rxrun (rxinit progs) sched in
   freed w = true ->
   refs w = 0 /\ queue (mw (xw w)) = [] /\
-  (forall f, In f (cvq (xw w)) \/ (exists u, In f (kws (xw w) u)) -> nrec (xw w) f = true) /\
+  (forall f, In f (cvq (xw w)) \/ (exists u, In f (kws (xw w) u)) -> xn_rec (x_pc (xget (xw w) f)) = true) /\
   forall t, phase_of w t <> Pre /\
             (phase_of w t <> NonUser ->
                x_pc (xget (xw w) t) = XIdle /\ x_ops (xget (xw w) t) = [] /\ t_ops (get (mw (xw w)) t) = [] /\
